@@ -149,7 +149,15 @@ def gen_history(rng, nops, nkeys, timed, weights=None):
     ops = []
     nreq = 0
     nconn = 0
-    w = weights or {"I": 22, "P": 30, "D": 14, "F": 9, "X": 5, "R": 8, "C": 3, "B": 10, "U": 1, "T": 3 if timed else 0}
+    profiles = [
+        {"I": 22, "P": 30, "D": 14, "F": 9, "X": 5, "R": 8, "C": 3, "B": 10, "U": 1},     # default
+        {"I": 22, "P": 26, "D": 14, "F": 8, "X": 3, "R": 8, "C": 12, "B": 10, "U": 3},    # peers close a lot
+        {"I": 24, "P": 24, "D": 12, "F": 6, "X": 16, "R": 6, "C": 3, "B": 12, "U": 1},    # many cancels
+        {"I": 34, "P": 22, "D": 16, "F": 8, "X": 4, "R": 8, "C": 4, "B": 8, "U": 1},      # bursts of issues
+        {"I": 16, "P": 24, "D": 12, "F": 14, "X": 4, "R": 14, "C": 4, "B": 14, "U": 1},   # lots of release / hand-back
+    ]
+    w = dict(weights or rng.choice(profiles))
+    w["T"] = 3 if timed else 0
     kinds = list(w)
     h2bias = rng.choice([0.0, 0.15, 0.5, 0.85, 1.0])
     failbias = rng.choice([0.0, 0.1, 0.3, 0.6])
@@ -160,6 +168,14 @@ def gen_history(rng, nops, nkeys, timed, weights=None):
         if k == "I":
             ops.append(["I", rng.choice(keys), 2 if rng.random() < h2bias else 1])
             nreq += 1
+            x = rng.random()
+            if x < 0.10 and nconn:          # the window between an Issue and its first poll
+                ops.append(["C", rng.randrange(nconn + 1)])
+            elif x < 0.16:
+                ops.append(["X", nreq - 1])
+            elif x < 0.26:
+                ops.append(["I", ops[-1][1], 2 if rng.random() < h2bias else 1])
+                nreq += 1
         elif k == "D":
             r = rng.randrange(nreq)
             if rng.random() < failbias:
